@@ -148,6 +148,39 @@ fn pairs<B: Backend, B2: Backend>(cx: &mut Ctx, x: &[u8], y: &[u8]) {
     let _ = (PathBuf::new(), OsString::new());
 }
 
+/// Hip-vs-Hip on values that alias one buffer (sub-views of one borrowed slice / of one heap allocation): same start with other
+/// lengths, same end, identical, overlapping.  The verdict must be std's verdict on the viewed bytes, whatever the addresses.
+fn aliased<B: Backend>(sum: &mut Summary, bk: &'static str, text: &'static str, heap: bool) {
+    let n = text.len();
+    let cuts: Vec<usize> = [0usize, 1, 2, 24, 25, 30, n - 1, n].into_iter().filter(|&c| c <= n).collect();
+    let mut ranges: Vec<(usize, usize)> = vec![];
+    for &a in &cuts { for &b in &cuts { if a <= b { ranges.push((a, b)); } } }
+    let whole_b: HipByt<'static, B> = if heap { HipByt::from(text.as_bytes()) } else { HipByt::borrowed(text.as_bytes()) };
+    let whole_s: HipStr<'static, B> = if heap { HipStr::from(text) } else { HipStr::borrowed(text) };
+    let whole_o: HipOsStr<'static, B> = if heap { HipOsStr::from(text) } else { HipOsStr::borrowed(text) };
+    for &(a, b) in &ranges { for &(c, d) in &ranges {
+        let (x, y) = (&text.as_bytes()[a..b], &text.as_bytes()[c..d]);
+        let mut cx = Ctx { sum, bk };
+        let tag = |t: &str| format!("cmp {} vs {} on two views [{}..{}] and [{}..{}] of one {} buffer bk={} x={} y={}", t, t, a, b, c, d, if heap { "heap" } else { "borrowed" }, bk, hex(x), hex(y));
+        macro_rules! same { ($t:expr, $l:expr, $r:expr, $eq:expr, $ord:expr) => {{
+            cx.sum.evaluations += 1;
+            let (l, r) = (&$l, &$r);
+            if (*l == *r) != $eq { cx.bad(tag($t) + " ==", format!("{}", *l == *r), format!("{}", $eq)); }
+            if l.partial_cmp(r) != Some($ord) { cx.bad(tag($t) + " partial_cmp", format!("{:?}", l.partial_cmp(r)), format!("{:?}", Some($ord))); }
+            if l.cmp(r) != $ord { cx.bad(tag($t) + " cmp", format!("{:?}", l.cmp(r)), format!("{:?}", $ord)); }
+            if $eq && h(l) != h(r) { cx.bad(tag($t) + " hash of equal values", "differs".into(), "equal".into()); }
+        }}; }
+        same!("HipByt", whole_b.slice(a..b), whole_b.slice(c..d), x == y, x.cmp(y));
+        same!("HipStr", whole_s.slice(a..b), whole_s.slice(c..d), x == y, x.cmp(y));
+        let (ox, oy) = (OsStr::from_bytes(x), OsStr::from_bytes(y));
+        let wb = whole_o.as_os_str().as_bytes();
+        let (lo, ro) = (whole_o.slice_ref(OsStr::from_bytes(&wb[a..b])), whole_o.slice_ref(OsStr::from_bytes(&wb[c..d])));
+        same!("HipOsStr", lo, ro, x == y, x.cmp(y));
+        let (px, py) = (Path::new(ox), Path::new(oy));
+        same!("HipPath", HipPath::<'static, B>::from(lo.clone()), HipPath::<'static, B>::from(ro.clone()), px == py, px.cmp(py));
+    } }
+}
+
 pub fn run(out_dir: &std::path::Path, tier: &str, _seed: u64, _rest: &[String]) {
     let mut sum = Summary::default();
     let header = "From Hip Require Import Base Cmp CasesCmp.\n";
@@ -175,9 +208,15 @@ pub fn run(out_dir: &std::path::Path, tier: &str, _seed: u64, _rest: &[String]) 
             }
         }
     }
+    for text in ["aaaaaaaaaaaaaaaaaaaaaaaaaaaaaaaaaaaaaaaaaaaaaaaaaaaaaaaa", "ab/ab/./ab//ab/../ab/ab/ab/./ab//ab/../ab/ab/ab/./ab//ab", "a/a/a/a/a/a/a/a/a/a/a/a/a/a/a/a/a/a/a/a/a/a/a/a/a/a/a/a/"] {
+        for heap in [false, true] {
+            aliased::<Arc>(&mut sum, "arc", text, heap); aliased::<Rc>(&mut sum, "rc", text, heap); aliased::<Unique>(&mut sum, "unique", text, heap);
+        }
+    }
     w.flush();
     sum.files = w.files.clone();
     sum.nontrivial = w.total as u64;
+    sum.samples.push(jstr("aliased views: all pairs of sub-ranges over 8 cut points of 3 texts x {borrowed, heap} x 3 backends x {HipByt, HipStr, HipOsStr, HipPath}: ==, partial_cmp, cmp, hash"));
     sum.samples.push(jstr(&format!("{} strings; per ordered pair: 50 (L,R) impl pairs in both operand orders (==, !=, partial_cmp), Ord, Hash, 7 Borrow lookups in HashMap and BTreeMap", strs.len())));
     sum.print();
 }
